@@ -1339,6 +1339,7 @@ size_t ZSTDMT_initCStream_internal(
     ZSTD_VERIF_EV("mtInit", &mtctx->serial, mtctx->roundBuff.capacity, mtctx->targetSectionSize, mtctx->targetPrefixSize, mtctx->params.nbWorkers, mtctx->jobIDMask, mtctx->params.ldmParams.enableLdm == ZSTD_ps_enable);
     mtctx->doneJobID = 0;
     mtctx->nextJobID = 0;
+    mtctx->jobReady = 0;   /* a job prepared but not yet posted belongs to the previous (aborted) frame */
     mtctx->frameEnded = 0;
     mtctx->allJobsCompleted = 0;
     mtctx->consumed = 0;
